@@ -247,8 +247,20 @@ def operand_order_rule(ck, F, prefix):
             if not (x.get('k') == 'ref' and x.get('kind') == 'local'):
                 continue
             n_sites += 1
-            later = [r for r in walk(f['body']) if r.get('k') == 'ref' and r.get('kind') == 'local' and r.get('id') == x.get('id') and r.get('name') == x.get('name')
-                     and r.get('ln', 0) > m.get('ln', 0)]
+            is_x = lambda r: r.get('k') == 'ref' and r.get('kind') == 'local' and r.get('id') == x.get('id') and r.get('name') == x.get('name')
+            GROW = ('push_back', 'emplace_back', 'push_front', 'emplace_front', 'insert', 'emplace', 'assign')
+            builds = lambda c_: c_.get('k') == 'call' and ((c_.get('callee') or {}).get('repo') is True or (c_.get('callee') or {}).get('name') in GROW)
+            later = []
+            for r in walk(f['body']):
+                if r.get('ln', 0) <= m.get('ln', 0):
+                    continue
+                # the reordered container is walked to fill another one / to call a factory, or handed to one whole
+                if r.get('k') == 'rangefor' and any(is_x(y) for y in walk(r.get('range'))) and any(builds(y) for y in walk(r.get('b'))):
+                    later.append(r)
+                elif builds(r) and any(is_x(y) for a_ in (r.get('args') or []) for y in walk(a_)):
+                    later.append(r)
+                elif r.get('k') in ('ctor', 'initlist') and (r.get('t') or '').replace('const ', '').startswith('ipr::') and any(is_x(y) for y in walk(r.get('args') or r.get('elts') or [])):
+                    later.append(r)
             sid = '::'.join(contracts.fn_qname(f['id']).split('::')[-2:]) + '/' + str(len(f['params'])) + f':{m.get("ln")}'
             if later:
                 found = True
